@@ -607,6 +607,20 @@ impl<Store: StorageData> DbImpl<Store> {
     }
 
     pub(crate) fn insert_alias(&mut self, db_id: DbId, alias: &String) -> Result<(), DbError> {
+        if alias.is_empty() {
+            return Err(DbError::query(
+                DbErrorType::NotAllowed,
+                "Empty alias is not allowed",
+            ));
+        }
+
+        if db_id.0 < 0 {
+            return Err(DbError::query(
+                DbErrorType::NotAllowed,
+                format!("Only nodes can have aliases - edge id '{}' found", db_id.0),
+            ));
+        }
+
         if let Some(owner) = self.aliases.value(&self.storage, alias)?
             && owner != db_id
         {
